@@ -20,13 +20,13 @@ ALPHA = 0x3B1
 
 def build_bs(extra=False):
     tdir = os.path.join(H.BUILD, 'bs')
-    src = os.path.join(H.VERIF, 'bs')
+    src = H.crate_dir('bs')
     env = dict(os.environ, CARGO_TARGET_DIR=tdir, RUSTFLAGS=H.RUSTFLAGS, CARGO_NET_OFFLINE='true')
     env.pop('RUSTUP_TOOLCHAIN', None)
     lock = os.path.join(src, 'Cargo.lock')
     if not os.path.exists(lock):
         import shutil
-        shutil.copy('/repo/Cargo.lock', lock)
+        shutil.copy(os.path.join(H.REPO, 'Cargo.lock'), lock)
     t0 = time.time()
     r = H.sh(['cargo', '+nightly', 'build', '--release', '--offline', '-Zbuild-std=core,alloc,std,panic_abort',
               '--target', 'x86_64-unknown-linux-gnu'], cwd=src, env=env)
